@@ -516,6 +516,9 @@ func (fr *Frame) applyContract(c *Contract, names []string, ptypes []types.Type,
 			})
 		}
 	}
+	if !c.Assumed && c.Kind == "func" && len(c.Props) == 0 {
+		vc.assumed["assumed contract (function of this repository, its body is not verified under any property): "+shortPkg(c.Pkg)+"."+c.Key] = true
+	}
 	if c.Assumed {
 		vc.assumed["assumed contract: "+shortPkg(c.Pkg)+"."+c.Key] = true
 	}
